@@ -14,7 +14,7 @@ TYPES = {
     "float(value_min=0)": (["0.5"], ["0", "7.25", "0.50000000000001"], ["-1"]),
     "bool": (["True", "False", "yes", "None"], ["True", "False", "no", "on", "0"], ["maybe"]),
     "str": (["x", '"a b"', "None", "a b", "Auto"], ["y", '"p q"', "'it'", "None", "a  b", '"None"', '"Auto"', "Auto", "'none'"], []),
-    "qstr": (["x", '"a b" c', "None"], ["y", "'p q' r", '"None"', "None"], []),
+    "qstr": (["x", '"a b" c', "None", '"""a b""" c'], ["y", "'p q' r", '"None"', "None", "'''p q'''"], []),
     "path": (["x.dat", "None", "Auto"], ["/tmp/y", '"a b/c"', '"None"', '"Auto"', "None"], []),
     "key": (["k1", "None"], ["k2", "None", '"None"', "Auto"], []),
     "ints": (["1 2", "None"], ["3", "4 5 6", "1,2"], ["x", "1.5"]),
@@ -22,7 +22,7 @@ TYPES = {
     "floats": (["1.5 2"], ["0.5", "1 2 3"], ["x"]),
     "floats(size_max=2, value_min=0)": (["1"], ["0.5 2"], ["1 2 3", "-1"]),
     "strings": (["a b", "None", "Auto"], ["c", "d 'e f'", '"None"', 'a "Auto"', "Auto", "None"], []),
-    "words": (["a 'b c'", "None"], ["d", "e f", '"None"', "None", "Auto"], []),
+    "words": (["a 'b c'", "None", 'a """b c"""', "'''p q''' r"], ["d", "e f", '"None"', "None", "Auto", '"""t u"""'], []),
     "choice": (["a *b c", "a b c", "*a b c d", "lo *hi", "x *a"], ["a", "*c", "c", "None"], ["zz", "*a *b"]),
     "choice(multi=True)": (["*a b *c", "a b c", "a *d e", "*lo hi mid"], ["a", "*a *b", "a+b", "None"], ["zz"]),
     None: (["x y", "1", "None", "Auto"], ["p", "q r", "'s t'", '"None"', "'Auto'", "None"], []),
